@@ -321,9 +321,16 @@ def generate(rng, tier):
         ttl = rng.choice((Q, Q * 5 // 2, 15 * Q))
         n = rng.randrange(1, 13)
         yield from history(rng, ttl, n, rng.random() < 0.4, ())
+    # session level: real sessions (silent, late, slow, rejecting SMSC; link resets while a submit_sm is written; suspending
+    # hooks; dropped connections) judged by the time-out clauses alone
+    from corr import c01s
+    yield from c01s.generate(rng, 240 if thorough else 60, which='c14')
 
 
 def replay(inp):
+    if inp.get('op') == 'session':
+        from corr import c01s
+        return c01s.case_of(dict(inp['sc']), 'c14')
     if inp.get('op') == 'sched':
         return Case('\n'.join(['c.new %d 102400' % inp['ttl']] + inp.get('lines', [])), '', None, None, inp)
     if inp.get('op') == 'interleaved':
